@@ -86,8 +86,46 @@ def _snapshot_module_state():
             for k, v in list(vars(mod).items()):
                 if k.startswith("__"):
                     continue
-                if type(v) in (dict, list, set):
-                    _MODSTATE.append((v, type(v)(v)))
+                _register_container(v, 0)
+
+
+def _register_container(v, depth):
+    """v and (three levels of) the containers nested in it: tables of tables are module state too"""
+    if type(v) not in (dict, list, set) or any(v is o for o, _ in _MODSTATE):
+        return
+    _MODSTATE.append((v, type(v)(v)))
+    if depth < 3 and type(v) in (dict, list):
+        for x in (v.values() if isinstance(v, dict) else v):
+            _register_container(x, depth + 1)
+
+
+_LRU_CACHES = []
+
+
+def _symx_lru_cache(maxsize=128, typed=False):
+    """functools.lru_cache for the code under test: a memo whose look-up compares the arguments with == (symbolic
+    arguments fork on equality with every remembered call) and which is emptied before every explored path"""
+    def deco(fn):
+        memo = []
+        _LRU_CACHES.append(memo)
+
+        def wrapper(*args, **kw):
+            key = (args, tuple(sorted(kw.items())))
+            for k, v in memo:
+                if len(k[0]) == len(args) and len(k[1]) == len(key[1]) and \
+                        all(bool(a == b) for a, b in zip(k[0], args)) and all(bool(a == b) for a, b in zip(k[1], key[1])):
+                    return v
+            v = fn(*args, **kw)
+            memo.append((key, v))
+            return v
+        wrapper.__wrapped__ = fn
+        wrapper.cache_clear = memo.clear
+        wrapper.__name__, wrapper.__doc__ = getattr(fn, "__name__", "f"), getattr(fn, "__doc__", None)
+        return wrapper
+    if callable(maxsize):       # @lru_cache without parentheses
+        fn, maxsize = maxsize, 128
+        return deco(fn)
+    return deco
 
 
 def _snapshot_now():
@@ -96,7 +134,7 @@ def _snapshot_now():
 
 def _restore_to(snap):
     for obj, saved in snap:
-        if len(obj) != len(saved):
+        if not _same(obj, saved):
             if isinstance(obj, list):
                 obj[:] = saved
             else:
@@ -104,10 +142,23 @@ def _restore_to(snap):
                 obj.update(saved)
 
 
+def _same(obj, pristine):
+    """identity-wise equality of a container and its shallow copy (never calls == on proxies)"""
+    if len(obj) != len(pristine):
+        return False
+    if isinstance(obj, list):
+        return all(a is b for a, b in zip(obj, pristine))
+    if isinstance(obj, dict):
+        return all(k1 is k2 and v1 is v2 for (k1, v1), (k2, v2) in zip(obj.items(), pristine.items()))
+    return all(any(x is y for y in pristine) for x in obj)
+
+
 def _restore_module_state():
     """module-level caches must not carry values from one explored path into the next"""
+    for c in _LRU_CACHES:
+        c.clear()
     for obj, pristine in _MODSTATE:
-        if len(obj) != len(pristine):
+        if not _same(obj, pristine):
             if isinstance(obj, list):
                 obj[:] = pristine
             else:
@@ -135,7 +186,17 @@ def load_repo(src=None, force=False):
             sys.modules[stub] = m
     sys.meta_path[:] = [f for f in sys.meta_path if not isinstance(f, _Finder)]
     sys.meta_path.insert(0, _Finder(src))
-    import pyModeS
+    import functools
+    _real_lru, _real_cache = functools.lru_cache, getattr(functools, "cache", None)
+    functools.lru_cache = _symx_lru_cache
+    if _real_cache is not None:
+        functools.cache = _symx_lru_cache(None)
+    try:
+        import pyModeS
+    finally:
+        functools.lru_cache = _real_lru
+        if _real_cache is not None:
+            functools.cache = _real_cache
     assert pyModeS.common.__name__ == "pyModeS.py_common", pyModeS.common.__name__
     assert pyModeS.__file__.startswith(src), pyModeS.__file__
     from . import stubs
